@@ -59,11 +59,33 @@ pub fn batch(seed: u64, index: u64) -> (u32, Vec<u32>) {
     (m, v)
 }
 
-pub fn execute(m: u32, scripts: &[u32], seed: u64, with_sub: bool) -> W {
+/// `late`: the last of the m middlewares is registered with add_middleware() from another thread while
+/// middleware 0 is parked inside before_reduce of a first (parking) action; the batch follows.
+pub fn execute(m: u32, scripts: &[u32], seed: u64, with_sub: bool, late: bool) -> W {
     let ctx = Ctx::new_opts(ScriptSrc::Verdicts, 1, seed, 0, false, true);
-    let w = W::new(ctx, vec![StoreCfg { policy: POL_BLOCK, cap: 16, n_red: N_RED, n_mw: m, name: "rsvf".into(), ctor: 0 }]);
+    let w = W::new(ctx, vec![StoreCfg { policy: POL_BLOCK, cap: 16, n_red: N_RED, n_mw: if late { m - 1 } else { m }, name: "rsvf".into(), ctor: 0 }]);
     // a store without any subscriber must still run the before_dispatch hooks
     let keep = if with_sub { Some(w.add_direct(0, NOGATE, false, true, false)) } else { None };
+    if late {
+        w.dispatch(0, EP_INHERENT, Act { id: act_id(0, 62, 1), script: 1 << 30 });
+        let parked = w.ctx.gates[0].wait_parked(1);
+        std::thread::scope(|sc| {
+            let w = &w;
+            let t = std::thread::Builder::new().name("late-mw".into()).spawn_scoped(sc, move || w.add_middleware(0)).unwrap();
+            // (in the unmodified code the call waits for the running chain: the list is locked)
+            crate::fam_a::wait_until(|| crate::fam_a::count_where(w, |e| e.k == K::AddInv && e.r == REG_MW) >= 1);
+            for _ in 0..50 {
+                std::thread::yield_now();
+            }
+            w.ctx.gates[0].open();
+            t.join().unwrap();
+        });
+        if !parked {
+            w.mark(900, 1);
+        }
+    } else {
+        w.ctx.gates[0].open();
+    }
     let mut exp_runs = 0u64;
     for (k, sn) in scripts.iter().enumerate() {
         let id = act_id(0, 1 + (k as u32 >> 13), (k as u32 & 0x1fff) + 1);
@@ -132,7 +154,13 @@ pub fn c12(h: &Hist, s: u8, v: &mut Verdicts) -> u64 {
         v.inconcl("C12", "stop() hit its timeout".into());
         return 0;
     }
-    let m_n = cfg.n_mw;
+    let _ = cfg;
+    if h.evs.iter().any(|e| e.k == K::Mark && e.idx == 900) {
+        v.inconcl("C12", "the parking action did not park".into());
+        return 0;
+    }
+    // (every enumerated action is dispatched after the last registration has returned)
+    let m_n = h.n_mw_final[s as usize];
     let mut cur = St::initial(s);
     let has_sub = h.subs.iter().any(|x| x.kind == SK_DIRECT);
     let sub_id = h.subs.iter().find(|x| x.kind == SK_DIRECT).map(|x| x.id).unwrap_or(u32::MAX);
@@ -156,7 +184,7 @@ pub fn c12(h: &Hist, s: u8, v: &mut Verdicts) -> u64 {
             Some(d) => d.z,
             None => continue,
         };
-        if id_producer(*a) == 63 {
+        if id_producer(*a) == 63 || id_producer(*a) == 62 {
             // tail action: part of the fold, not of the enumeration
             let sc0 = h.ctx.script(z);
             let act = Act { id: *a, script: z };
@@ -335,7 +363,8 @@ pub fn run(seed: u64, index: u64, tiny: bool) -> Outcome {
         scripts.truncate(6);
     }
     let with_sub = index % 2 == 0 || index < B1 + B2;
-    let w = execute(m, &scripts, seed, with_sub);
+    let late = m >= 2 && index % 5 == 1;
+    let w = execute(m, &scripts, seed, with_sub, late);
     let h = Hist::from_world(&w);
     let mut v = Verdicts::default();
     c12(&h, 0, &mut v);
@@ -344,6 +373,7 @@ pub fn run(seed: u64, index: u64, tiny: bool) -> Outcome {
         ("middlewares", J::U(m as u64)),
         ("batch_index", J::U(index)),
         ("subscriber_registered", J::B(with_sub)),
+        ("last_middleware_registered_while_a_before_reduce_chain_is_parked", J::B(late)),
         ("actions", J::U(scripts.len() as u64)),
         ("first_scripts", J::A(scripts.iter().take(6).map(|s| J::s(format!("{:#x}", s))).collect())),
     ]);
